@@ -60,6 +60,9 @@ type vjOpts struct {
 	// that starts with this prefix; read and clear them with takeLogs(). All
 	// other log output is discarded. A JS transform reaches it with Log("<prefix>...").
 	CaptureLog string
+	// OnLog (optional, with CaptureLog): called synchronously on the logging
+	// goroutine for every captured message, before it is stored.
+	OnLog func(msg string)
 }
 
 type vjHub struct {
@@ -79,6 +82,7 @@ type vjLogCore struct {
 	mu     sync.Mutex
 	prefix string
 	msgs   []string
+	onLog  func(string)
 }
 
 func (c *vjLogCore) Enabled(l zapcore.Level) bool      { return l >= zapcore.InfoLevel }
@@ -91,6 +95,9 @@ func (c *vjLogCore) Check(e zapcore.Entry, ce *zapcore.CheckedEntry) *zapcore.Ch
 	return ce
 }
 func (c *vjLogCore) Write(e zapcore.Entry, _ []zapcore.Field) error {
+	if c.onLog != nil {
+		c.onLog(e.Message)
+	}
 	c.mu.Lock()
 	c.msgs = append(c.msgs, e.Message)
 	c.mu.Unlock()
@@ -141,7 +148,7 @@ func newVJHub(o vjOpts) *vjHub {
 	h := &vjHub{Dir: kit.NewDir("vj")}
 	lg := zap.NewNop().Sugar()
 	if o.CaptureLog != "" {
-		h.logs = &vjLogCore{prefix: o.CaptureLog}
+		h.logs = &vjLogCore{prefix: o.CaptureLog, onLog: o.OnLog}
 		lg = zap.New(h.logs).Sugar()
 	}
 	h.Env = &conf.Config{
